@@ -53,7 +53,7 @@ var c13Kinds = []string{
 	// calls that must fail
 	"transcript-retain", "fail-prove-zero-commitment",
 	"readpoint-mutate", "readscalar-mutate", "prove-mutate-result", "fr-setbigint", "fr-setinterface", "setidentity-mutate",
-	"fail-prove-len", "fail-prove-zero", "fail-prove-polylen", "fail-verify-len", "fail-batchnorm-zero", "fail-read-short", "fail-decode-noncanonical", "fail-msm-len",
+	"fail-prove-len", "fail-prove-zero", "fail-prove-polylen", "fail-verify-len", "fail-verify-shape", "fail-ipa-verify-shape", "fail-batchnorm-zero", "fail-read-short", "fail-decode-noncanonical", "fail-msm-len",
 }
 
 func (c13) Prepare(string) { env.Config(); env.Pool(); c13globals() }
@@ -336,6 +336,28 @@ func c13globals() map[string]interface{} {
 	return g
 }
 
+// zeroPrints: fingerprint of the zero value of every package-level variable's type.
+func zeroPrints() map[string]uint64 {
+	out := map[string]uint64{}
+	for k, v := range c13globals() {
+		t := reflect.TypeOf(v).Elem()
+		if skipType(t) {
+			continue
+		}
+		out[k] = Fingerprint(reflect.New(t).Interface())
+	}
+	return out
+}
+
+func exportedVar(k string) bool {
+	for i := len(k) - 1; i >= 0; i-- {
+		if k[i] == '.' {
+			return i+1 < len(k) && k[i+1] >= 'A' && k[i+1] <= 'Z'
+		}
+	}
+	return false
+}
+
 func globalsPrint() map[string]uint64 {
 	out := map[string]uint64{}
 	for k, v := range c13globals() {
@@ -570,6 +592,26 @@ func doCall(a *arena, c C13Call) (out string, failed bool) {
 		}
 		ok, err := multiproof.CheckMultiProof(common.NewTranscript("arena"), cfg, a.Proofs[k], Cs, ys, zs)
 		return digest(ok, err), err != nil
+	case "fail-verify-shape", "fail-ipa-verify-shape":
+		// a structurally malformed proof object (wrong number of L/R points): must give an error
+		// (private copy of the proof header; the points still alias the arena)
+		k := pick(nProofs, c.A)
+		bad := *a.Proofs[k]
+		switch c.N % 3 {
+		case 0:
+			bad.IPA.L = bad.IPA.L[:7]
+		case 1:
+			bad.IPA.R = bad.IPA.R[:3]
+		default:
+			bad.IPA.L, bad.IPA.R = bad.IPA.L[:6], bad.IPA.R[:6]
+		}
+		if c.Kind == "fail-ipa-verify-shape" {
+			ok, err := ipa.CheckIPAProof(common.NewTranscript("arena-ipa"), cfg, *a.Commits[0], bad.IPA, a.IPAEval, a.IPARes)
+			return digest(ok, err), err != nil
+		}
+		Cs := []*banderwagon.Element{a.Commits[k], a.Commits[k+1]}
+		ok, err := multiproof.CheckMultiProof(common.NewTranscript("arena"), cfg, &bad, Cs, a.ProofYs[k], a.ProofZs[k])
+		return digest(ok, err), err != nil
 	case "ipa-prove":
 		z := a.Scalars[pick(nScal, c.A)]
 		k := pick(nPolys, c.B)
@@ -787,6 +829,7 @@ var c13probeCalls = []C13Call{
 }
 
 type c13out struct {
+	lazyInits     int
 	class, detail string
 	failedCalls   int
 	fullTableHashes int
@@ -815,6 +858,8 @@ func (c13) Exec(plan interface{}) Result {
 		light0, tab0 := configPrint(cfg, -1)
 		o.fullTableHashes++
 		glob0 := globalsPrint()
+		zero0 := zeroPrints()
+		lazyDone := map[string]bool{}
 		ap := a.print()
 		raw := a.rawValues()
 		check := func(i int, c C13Call, after string) (bool, c13out) {
@@ -828,6 +873,17 @@ func (c13) Exec(plan interface{}) Result {
 			g := globalsPrint()
 			for k, v := range g {
 				if glob0[k] != v {
+					// An unexported variable that still had its zero value and is set ONCE is lazy
+					// initialisation of private state (a sync.Once-guarded table, say): the property
+					// is about constants and about results not depending on history, which the
+					// probes below check. Anything else - an exported variable, a variable that was
+					// already initialised, a second change - is a violation.
+					if !exportedVar(k) && glob0[k] == zero0[k] && !lazyDone[k] {
+						lazyDone[k] = true
+						glob0[k] = v
+						o.lazyInits++
+						continue
+					}
 					return false, fail("global-modified", "call %d (%s) %s changed package-level variable %s", i, c.Kind, after, k)
 				}
 			}
@@ -923,6 +979,9 @@ func (c13) Exec(plan interface{}) Result {
 	}
 	if got.class != "" {
 		return mergeViolation(res, got.class, "%s", got.detail)
+	}
+	if got.lazyInits > 0 {
+		res.note("lazy-init-of-private-package-state-tolerated")
 	}
 	res.Nontrivial = true
 	res.OK = true
